@@ -14,8 +14,8 @@ Record instance := { i_id : bytes; i_addr : bytes; i_master : bytes; i_replicas 
 Inductive cn_result :=
 | CnOk (insts : list instance)      (* masters, replicas attached *)
 | CnErr                             (* errInvalidClusterNodes *)
-| CnPanic                           (* nil master dereference *)
-| CnHuge.                           (* a slot range the expansion loop cannot finish (memory) *)
+| CnPanic                           (* nil master dereference (not reachable: see C11) *)
+| CnAmbig.                          (* a replica of another replica: error or success depending on Go's map order *)
 
 Definition atoi (b : bytes) : option Z := match parse_int64 b with inl z => Some z | inr _ => None end.
 
@@ -25,42 +25,36 @@ Definition is_bracketed (seg : bytes) : bool :=
   | _ => false
   end.
 
-Definition max_expand : Z := 1048576.   (* ranges longer than this are reported as CnHuge *)
-
 Fixpoint z_seq (start : Z) (n : nat) : list Z :=
   match n with O => [] | S k => start :: z_seq (start + 1)%Z k end.
 
-(* parseClusterNodesSlot: None = error; Some None = huge *)
-Fixpoint parse_slots (segs : list bytes) : option (option (list Z)) :=
+(* parseClusterNodesSlot: None = errInvalidClusterNodes. A range must lie within 0 .. slot_count-1
+   (it is expanded element by element) *)
+Fixpoint parse_slots (slot_count : Z) (segs : list bytes) : option (list Z) :=
   match segs with
-  | [] => Some (Some [])
+  | [] => Some []
   | seg :: rest =>
-    if is_bracketed seg then parse_slots rest
+    if is_bracketed seg then parse_slots slot_count rest
     else
       let here :=
         match split_on 45 seg [] with
         | [a; b] => match atoi a, atoi b with
-                    | Some s, Some e => if (e - s >? max_expand)%Z then Some None
-                                        else Some (Some (z_seq s (Z.to_nat (e - s + 1))))
+                    | Some s, Some e => if (s <? 0)%Z || (slot_count <=? e)%Z then None
+                                        else Some (z_seq s (Z.to_nat (e - s + 1)))
                     | _, _ => None
                     end
-        | [a] => match atoi a with Some s => Some (Some [s]) | None => None end
+        | [a] => match atoi a with Some s => Some [s] | None => None end
         | _ => None
         end in
-      match here with
-      | None => None
-      | Some None => match parse_slots rest with None => None | _ => Some None end
-      | Some (Some l) => match parse_slots rest with
-                         | None => None
-                         | Some None => Some None
-                         | Some (Some r) => Some (Some (l ++ r))
-                         end
+      match here, parse_slots slot_count rest with
+      | Some l, Some r => Some (l ++ r)
+      | _, _ => None
       end
   end.
 
-Inductive line_result := LSkip | LBad | LHuge | LInst (i : instance).
+Inductive line_result := LSkip | LBad | LInst (i : instance).
 
-Definition parse_line (line : bytes) : line_result :=
+Definition parse_line (slot_count : Z) (line : bytes) : line_result :=
   let fs := fields line [] in
   match fs with
   | [] => LSkip
@@ -74,10 +68,9 @@ Definition parse_line (line : bytes) : line_result :=
         let m := nth 3 fs [] in
         if bytes_eqb m [45] then
           if lenN fs <? 9 then LBad
-          else match parse_slots (skipn 8 fs) with
+          else match parse_slots slot_count (skipn 8 fs) with
                | None => LBad
-               | Some None => LHuge
-               | Some (Some sl) => LInst {| i_id := id; i_addr := addr; i_master := []; i_replicas := []; i_slots := sl |}
+               | Some sl => LInst {| i_id := id; i_addr := addr; i_master := []; i_replicas := []; i_slots := sl |}
                end
         else LInst {| i_id := id; i_addr := addr; i_master := m; i_replicas := []; i_slots := [] |}
   end.
@@ -89,14 +82,13 @@ Fixpoint put_inst (i : instance) (l : list instance) : list instance :=
   | x :: t => if bytes_eqb (i_id x) (i_id i) then i :: t else x :: put_inst i t
   end.
 
-Fixpoint parse_lines (ls : list bytes) (acc : list instance) : cn_result :=
+Fixpoint parse_lines (slot_count : Z) (ls : list bytes) (acc : list instance) : cn_result :=
   match ls with
   | [] => CnOk acc
-  | l :: rest => match parse_line l with
-                 | LSkip => parse_lines rest acc
+  | l :: rest => match parse_line slot_count l with
+                 | LSkip => parse_lines slot_count rest acc
                  | LBad => CnErr
-                 | LHuge => CnHuge
-                 | LInst i => parse_lines rest (put_inst i acc)
+                 | LInst i => parse_lines slot_count rest (put_inst i acc)
                  end
   end.
 
@@ -105,25 +97,35 @@ Definition find_inst (id : bytes) (l : list instance) : option instance :=
 
 Definition is_replica (i : instance) : bool := negb (match i_master i with [] => true | _ => false end).
 
-(* attach replicas: a replica naming an id that is not in the map dereferences nil; a replica naming
-   another replica is order dependent in the Go map walk (may be nil after deletion): reported as panic *)
+(* attach replicas: a replica naming an id that is not in the map is an error; a replica naming itself
+   attaches to itself and disappears; a replica naming another replica is order dependent in the Go map
+   walk (nil after deletion, or not) *)
 Definition restructure (l : list instance) : cn_result :=
   let reps := filter is_replica l in
   let masters := filter (fun i => negb (is_replica i)) l in
-  if forallb (fun r => match find_inst (i_master r) l with
-                       | Some m => negb (is_replica m)
-                       | None => false
-                       end) reps
+  if negb (forallb (fun r => match find_inst (i_master r) l with Some _ => true | None => false end) reps)
+  then (* some named master is not in the map at all: errInvalidClusterNodes whatever the order...
+          unless another replica's chain makes the walk fail or succeed first: still an error or ambiguous *)
+       if forallb (fun r => match find_inst (i_master r) l with
+                            | Some m => negb (is_replica m) || bytes_eqb (i_id m) (i_id r)
+                            | None => true
+                            end) reps
+       then CnErr else CnAmbig
+  else if forallb (fun r => match find_inst (i_master r) l with
+                            | Some m => negb (is_replica m) || bytes_eqb (i_id m) (i_id r)
+                            | None => false
+                            end) reps
   then CnOk (map (fun m => {| i_id := i_id m; i_addr := i_addr m; i_master := [];
                                i_replicas := map i_addr (filter (fun r => bytes_eqb (i_master r) (i_id m)) reps);
                                i_slots := i_slots m |}) masters)
-  else CnPanic.
+  else CnAmbig.
 
-Definition parse_cluster_nodes (data : bytes) : cn_result :=
-  match parse_lines (split_on 10 data []) [] with
+Definition parse_cluster_nodes_n (slot_count : Z) (data : bytes) : cn_result :=
+  match parse_lines slot_count (split_on 10 data []) [] with
   | CnOk l => restructure l
   | r => r
   end.
+Definition parse_cluster_nodes := parse_cluster_nodes_n 16384.
 
 (* doSlotsRefresh's table update: slot -> owner, out-of-range slots skipped; when several masters
    claim a slot the Go map walk picks an arbitrary one: the model keeps all claimants *)
@@ -272,7 +274,7 @@ Section Tables.
            else ScNode idx (hd (Bulk None) args :: Bulk (Some (dec_of_N_z ncur)) :: tl (tl args))
          end.
 
-  (* the hook that rewrites the node's reply; None = panic (index 0 of an empty array) *)
+  (* the hook that rewrites the node's reply; None = panic (never: empty arrays are left alone) *)
   Definition set_text (v : resp) (t : bytes) : resp :=
     match v with
     | Simple _ => Simple t | Err _ => Err t | Bulk _ => Bulk (Some t)
@@ -284,8 +286,8 @@ Section Tables.
 
   Definition scan_reply (idx : N) (reply : resp) : option resp :=
     match reply with
-    | Arr None => None
-    | Arr (Some []) => None
+    | Arr None => Some reply
+    | Arr (Some []) => Some reply
     | Arr (Some (x :: rest)) =>
       match btoi64 (text_of x) with
       | inr _ => Some reply
